@@ -11,25 +11,8 @@ Context (db : database).
 Notation spf := (spf db).
 Notation eof := (eof db).
 Notation wf := (wf db).
-
-(* no PHASE shifts an end-of-field below zero (where _GD_GetEOF clamps) *)
-Fixpoint noclamp (f : field) : Prop :=
-  match f with
-  | Raw _ | Index => True
-  | Un _ g => noclamp g
-  | Phase g sh => noclamp g /\ match eof g with Fin x => 0 <= x - sh | Inf => True end
-  | Bin _ g h | Mplex g h _ _ => noclamp g /\ noclamp h
-  | Tri _ g h l => noclamp g /\ noclamp h /\ noclamp l
-  end.
-
-Fixpoint noclampb (f : field) : bool :=
-  match f with
-  | Raw _ | Index => true
-  | Un _ g => noclampb g
-  | Phase g sh => noclampb g && match eof g with Fin x => 0 <=? x - sh | Inf => true end
-  | Bin _ g h | Mplex g h _ _ => noclampb g && noclampb h
-  | Tri _ g h l => noclampb g && noclampb h && noclampb l
-  end.
+Notation noclamp := (noclamp db).
+Notation noclampb := (noclampb db).
 
 Definition eof_rep (e : ext) (p : Z * bool) : Prop :=
   match e with Fin x => p = (x, false) | Inf => snd p = true end.
@@ -144,15 +127,6 @@ Proof.
     rewrite (div_ge_iff (k * spf f2) (spf f1) (bof_raw db f2)) by lia.
     rewrite Z.max_lub_iff, cdiv_le_iff by lia. lia.
 Qed.
-
-Fixpoint nophase (f : field) : Prop :=
-  match f with
-  | Raw _ | Index => True
-  | Phase _ _ => False
-  | Un _ g => nophase g
-  | Bin _ g h | Mplex g h _ _ => nophase g /\ nophase h
-  | Tri _ g h l => nophase g /\ nophase h /\ nophase l
-  end.
 
 Lemma bof_step_frames Bg Bh s1 s2 : 0 < s1 -> 0 < s2 ->
   bof_step (Bg, s1, 0) (Bh, s2, 0) = (Z.max Bg Bh, s1, 0).
